@@ -1888,9 +1888,22 @@ func (d *Data) modifyConfig(config dvid.Config) error {
 		if err != nil {
 			return err
 		}
-		d.MaxDownresLevel = uint8(maxDownresLevel)
+		d.setMaxDownresLevel(uint8(maxDownresLevel))
 	}
 	return nil
+}
+
+// setMaxDownresLevel changes the number of down-res levels and keeps the table of per-scale update
+// counters, which is indexed by scale, large enough for it.
+func (d *Data) setMaxDownresLevel(level uint8) {
+	d.updateMu.Lock()
+	d.MaxDownresLevel = level
+	if len(d.updates) < int(level)+1 {
+		updates := make([]uint32, int(level)+1)
+		copy(updates, d.updates)
+		d.updates = updates
+	}
+	d.updateMu.Unlock()
 }
 
 // --- LogReadable interface ---
@@ -1962,7 +1975,7 @@ func (d *Data) CopyPropertiesFrom(src datastore.DataService, fs storage.FilterSp
 	d.NextLabel = d2.NextLabel
 
 	d.IndexedLabels = d2.IndexedLabels
-	d.MaxDownresLevel = d2.MaxDownresLevel
+	d.setMaxDownresLevel(d2.MaxDownresLevel)
 
 	return d.Data.CopyPropertiesFrom(d2.Data, fs)
 }
